@@ -107,6 +107,29 @@ def main(tier):
                 execs.append(execution("dconv --zone " + name, ins, out, singles))
                 out, singles = run_all_one(dconv, ["--from-zone", name, "-f", "%FT%T"], ins, "stdin")
                 execs.append(execution("dconv --from-zone " + name, ins, out, singles))
+        # local readings that do not exist (inside a forward jump) or exist twice (inside a backward one), after and before readings from the
+        # ranges on either side, in every order: the local -> UTC search iterates on offsets and must not start from what the last value left
+        import datetime as _dtz
+        ngap = 0
+        for name, path in zs[: 25 if quick else 200]:
+            z = tzif.TZif(path)
+            t = z.trs
+            cand = [i for i in range(2, len(t) - 1) if 0 < t[i] < 4 * 10 ** 9 and z.offset_at(t[i] - 1) != z.offset_at(t[i])
+                    and t[i] - t[i - 1] > 86400 * 20 and t[i + 1] - t[i] > 86400 * 20]
+            for i in cand[-3:]:
+                o1, o2 = z.offset_at(t[i] - 1), z.offset_at(t[i])
+                mid = t[i] + (o1 + o2) // 2                      # a local reading in the middle of the gap / overlap
+                locs = [mid, (t[i - 1] + t[i]) // 2 + o1, (t[i] + t[i + 1]) // 2 + o2, t[i] + o1 - 7200, t[i] + o2 + 7200]
+                perms = list(itertools.permutations(locs, 3))
+                rng.shuffle(perms)
+                perms = [pm for pm in perms if mid in pm and pm[0] != mid][: 4 if quick else 12] + [pm for pm in perms if pm[0] == mid][:1]
+                for pm in perms:
+                    ins = [(_dtz.datetime(1970, 1, 1) + _dtz.timedelta(seconds=x)).strftime("%Y-%m-%dT%H:%M:%S") for x in pm]
+                    for mode in ("args", "stdin"):
+                        out, singles = run_all_one(dconv, ["--from-zone", name, "-f", "%FT%T"], ins, mode)
+                        execs.append(execution("dconv --from-zone %s (gap/overlap readings, %s)" % (name, mode), ins, out, singles))
+                        ngap += 1
+        rep.notes["gap_overlap_histories"] = ngap
         # the coordinated scales TAI and GPS answer from the leap-second table: representatives of its stretches in every order, with the
         # last second before each inserted one (the table's own key) among them
         import re as _re, datetime as _dt
